@@ -67,6 +67,7 @@ type Op struct {
 	UseCtx       bool `json:"use_ctx,omitempty"`
 	PreCancelled bool `json:"pre_cancelled,omitempty"`
 	Inherit      bool `json:"inherit,omitempty"`  // nested publish derives its context from the handler's
+	Detached     bool `json:"detached,omitempty"` // the publish context is live but carries the values of a request context that is over
 	Deadline     bool `json:"deadline,omitempty"` // the context ends with DeadlineExceeded instead of Canceled
 }
 
@@ -93,6 +94,21 @@ func (m *manualCtx) fire() {
 		close(m.done)
 	}
 	m.mu.Unlock()
+}
+
+// detachedCtx is the classic "detach" wrapper: the values of a parent context without its
+// cancellation (what applications wrote before context.WithoutCancel existed).
+type detachedCtx struct{ parent context.Context }
+type detachedKey struct{}
+
+func (detachedCtx) Deadline() (time.Time, bool) { return time.Time{}, false }
+func (detachedCtx) Done() <-chan struct{}       { return nil }
+func (detachedCtx) Err() error                  { return nil }
+func (d detachedCtx) Value(k any) any {
+	if _, ok := k.(detachedKey); ok {
+		return true
+	}
+	return d.parent.Value(k)
 }
 
 // Cfg configures the bus for a program.
@@ -825,7 +841,13 @@ func (e *Engine) doPub(op *Op, hctx context.Context) {
 			base = hctx
 		}
 		base = context.WithValue(base, pubKey{}, eid)
-		if op.Deadline {
+		if op.Detached && !op.Deadline && !op.PreCancelled {
+			// work detached from a request that is over: the context carries the request's values
+			// and is never done itself
+			req, over := context.WithCancel(base)
+			over()
+			f.ctx, f.cancel = detachedCtx{parent: req}, nil // nothing ends this context
+		} else if op.Deadline {
 			// the caller's own context type around an application context that stays live
 			live, keep := context.WithCancel(base)
 			e.keepLive = append(e.keepLive, keep)
@@ -835,7 +857,9 @@ func (e *Engine) doPub(op *Op, hctx context.Context) {
 		} else {
 			f.ctx, f.cancel = context.WithCancel(base)
 		}
-		e.cancels = append(e.cancels, f.cancel)
+		if f.cancel != nil {
+			e.cancels = append(e.cancels, f.cancel)
+		}
 		if op.PreCancelled {
 			f.cancel()
 			f.cancelled, f.pre = true, true
